@@ -15,6 +15,7 @@ PREFIXES = ["C04.", "Any.Crash"]
 def run(chk):
     cerlib.run_config(chk, "C04", PREFIXES)
     cerlib.run_config(chk, "C04client", PREFIXES)
+    cerlib.random_histories(chk, PREFIXES, quick_n=150)
     cerlib.finish_cov(chk,
                       "every element of the C04 product (2304 authenticator-level runs; plus the client mapping userVerification -> uv, up = true) "
                       "is one behaviour; non-trivial = the run reaches a prompt or a store call",
